@@ -140,7 +140,7 @@ func c16SimpleModel(kind string) *mc.Model {
 		name string
 		do   func(s *c16Simple)
 	}
-	samples := []sample{{rtt: baseRTT, inflight: 3}, {rtt: 2 * baseRTT, inflight: 12, drop: true}, {rtt: 0, inflight: 0}}
+	samples := []sample{{rtt: baseRTT, inflight: 3}, {rtt: 2 * baseRTT, inflight: 12, drop: true}, {rtt: 0, inflight: 0}, {rtt: baseRTT + baseRTT/2 + 7, inflight: 1 << 20}}
 	ops := func(s *c16Simple) []op {
 		var out []op
 		for _, sm := range samples {
@@ -151,7 +151,7 @@ func c16SimpleModel(kind string) *mc.Model {
 			}})
 		}
 		if s.set != nil {
-			for _, v := range []int{0, 1, 5, 7} {
+			for _, v := range []int{0, 1, 5, 7, -1} {
 				v := v
 				out = append(out, op{fmt.Sprintf("SetLimit(%d)", v), func(s *c16Simple) { s.set.SetLimit(v) }})
 			}
